@@ -352,8 +352,52 @@ def strat_eq(tier):
     return st.one_of(num, num, pair).map(lambda p: {"pair": [list(p[0]), list(p[1])]})
 
 
+# ---------------------------------------------------------------- a literal and the literal rebuilt from its own lexical form
+STRINGY = ["string", "normalizedString", "token", "language", "Name", "NCName", "anyURI"]
+
+
+def run_rebuild(case):
+    """Literal(lex, dt) and Literal(str(that), dt) are the same term, so they must be eq() too and hash alike; and normalising what is
+    already normalised changes nothing (the rebuilt literal has the same lexical form)"""
+    out = Out()
+    dt, lex = case["dt"], case["lex"]
+    a = sut(Literal, lex, datatype=URIRef(X + dt))
+    if is_err(a):
+        return out  # rejected input: reported by the lexical sub-check where the form is valid
+    b = sut(Literal, str(a), datatype=a.datatype)
+    if is_err(b):
+        out.fail(("rebuild-raises", dt, b.kind), f"Literal({str(a)!r}, {dt}): {b!r}")
+        return out
+    out.nontrivial = str(a) != lex
+    out.cls("rebuild:" + dt, "lexical-changed" if str(a) != lex else "lexical-kept")
+    if str(b) != str(a):
+        out.fail(("normalisation-not-idempotent", dt), f"{lex!r} -> {str(a)!r} -> {str(b)!r}")
+        return out
+    if not (a == b) or hash(a) != hash(b):
+        out.fail(("rebuilt-literal-not-term-equal", dt), f"{a!r} vs {b!r}")
+        return out
+    isnan = isinstance(a.value, float) and math.isnan(a.value)
+    e = sut(a.eq, b)
+    if not isnan and (is_err(e) or e is not True):
+        out.fail(("term-equal-but-not-eq", "rebuilt", dt), f"{a!r} == {b!r} but eq = {e!r} (values {a.value!r} / {b.value!r})")
+        return out
+    return out
+
+
+def strat_rebuild(tier):
+    from pbt.gen import terms as gt
+    ws = st.lists(st.sampled_from([" ", "  ", "\t", "\n", "\r", "a", "b", "é", "a b", "-", "1", ":"]), max_size=6).map("".join)
+    stringy = st.tuples(st.sampled_from(STRINGY), ws).map(lambda x: {"dt": x[0], "lex": x[1]})
+    table = st.sampled_from([(d, l) for tab in (gt.TYPED_CANON, gt.TYPED_NONCANON, gt.TYPED_INVALID) for d, ls in tab for l in ls]).map(
+        lambda x: {"dt": x[0], "lex": x[1]})
+    padded = st.sampled_from([(d, l) for d, ls in gt.TYPED_CANON for l in ls]).flatmap(
+        lambda x: st.sampled_from([" %s", "%s ", "\t%s\n", " %s  "]).map(lambda f: {"dt": x[0], "lex": f % x[1]}))
+    return st.one_of(stringy, stringy, table, padded)
+
+
 SUBCHECKS = [
     Sub("pyvalue", strat_py, run_pyvalue, {"quick": 24000, "thorough": 600000}, weight=5),
     Sub("lexical", strat_lex, run_lexical, {"quick": 30000, "thorough": 800000}, weight=7),
     Sub("eq", strat_eq, run_eq, {"quick": 12000, "thorough": 300000}, weight=4),
+    Sub("rebuild", strat_rebuild, run_rebuild, {"quick": 8000, "thorough": 200000}, weight=2),
 ]
